@@ -274,9 +274,13 @@ def xIf (r : Rec) (node : PTree) : IxM (Option Ty) := do
   let some (_, some thenTyp) := vt.head? | return some .unknown
   let vt := vt.tail
   let some (elseRange, some elseTyp) := vt.head? | return some .unknown
-  if ← canBeCastedTo thenTyp elseTyp then
-    return some thenTyp
-  else if ← canBeCastedTo elseTyp thenTyp then
+  let thenFits ← canBeCastedTo thenTyp elseTyp
+  let elseFits ← canBeCastedTo elseTyp thenTyp
+  if thenFits && elseFits then
+    if elseTyp.specificity > thenTyp.specificity then return some elseTyp else return some thenTyp
+  else if thenFits then
+    return some elseTyp
+  else if elseFits then
     return some thenTyp
   else if let some commonTyp ← withSM (fun sm => sm.commonTyp thenTyp elseTyp) then
     return some commonTyp
